@@ -451,3 +451,81 @@ func ZZC07Str() {
 	zzReach("str-ok")
 	zzWitness("end")
 }
+
+// ZZC06Multi: multi-line array and map literals whose lines are every
+// sequence of up to ML items (element, element with trailing comment,
+// own-line comment, blank line) — including literals that hold only comments —
+// in every position a literal can take: inferred declaration, assignment to a
+// typed variable, argument of a typed and of an any parameter, element of an
+// outer literal, and all of these inside a block.
+func ZZC06Multi() {
+	ML := zzParam("ML", 3)
+	n := zzChoice("items", ML+1)
+	isMap := zzChoice("map", 2) == 1
+	var lines []string
+	ne := 0
+	for k := 0; k < n; k++ {
+		switch zzChoice("item", 4) {
+		case 0, 1:
+			ne++
+			el := strconv.Itoa(ne)
+			if isMap {
+				el = "k" + strconv.Itoa(ne) + ": " + strconv.Itoa(ne)
+			}
+			if k%2 == 1 {
+				el += " // e" + strconv.Itoa(ne)
+			}
+			lines = append(lines, el)
+		case 2:
+			lines = append(lines, "// c"+strconv.Itoa(k))
+		case 3:
+			lines = append(lines, "")
+		}
+	}
+	open, close, typ := "[", "]", "[]num"
+	if isMap {
+		open, close, typ = "{", "}", "{}num"
+	}
+	inBlock := zzChoice("inblock", 2) == 1
+	pad := ""
+	if inBlock {
+		pad = "    "
+	}
+	lit := open + "\n"
+	for _, l := range lines {
+		if l == "" {
+			lit += "\n"
+		} else {
+			lit += pad + "  " + l + "\n"
+		}
+	}
+	lit += pad + close
+	var body string
+	switch zzChoice("pos", 6) {
+	case 0:
+		body = pad + "x := " + lit + "\n" + pad + "print x\n"
+	case 1:
+		body = pad + "y:" + typ + "\n" + pad + "y = " + lit + "\n" + pad + "print y\n"
+	case 2:
+		body = pad + "takes " + lit + "\n"
+	case 3:
+		body = pad + "print " + lit + " 1\n"
+	case 4:
+		body = pad + "z := [" + lit + " " + open + close + "]\n" + pad + "print z\n"
+	case 5:
+		body = pad + "w:[]" + typ + "\n" + pad + "w = [\n" + pad + "    " + lit + " // after\n" + pad + "]\n" + pad + "print w\n"
+	}
+	src := "func takes p:" + typ + "\n    print p\nend\n"
+	if inBlock {
+		src += "if true\n" + body + "end\n"
+	} else {
+		src += body
+	}
+	out := zzCheckFormat(src, "multi-line literal", true)
+	if out == "" {
+		zzLog("C06 multi: not accepted:\n" + src)
+	}
+	zzAssert(out != "", "C06 multi: a multi-line literal of elements, comments and blank lines is accepted in every position")
+	zzReach("multi-ok")
+	zzWitness("end")
+}
